@@ -484,6 +484,9 @@ class World:
                 v = it.unwrap(v, "TypeError", "object of type 'NoneType' has no len()")
             if isinstance(v, (str, tuple, list, dict, set, frozenset)):
                 return len(v)
+            from .values import SymSeq, PairSeq
+            if isinstance(v, (SymSeq, PairSeq)):
+                return v.n
             if isinstance(v, Obj):
                 m, _ = v.cls.lookup("__len__")
                 if m is None:
